@@ -39,6 +39,10 @@ CLAIMS = {
          "request types equal the subscribed ones; call/auth use [method] then [*] then methodNotFound and new prefers New; method stripping and method wildcards cover the same types; recovered "
          "*Error is passed verbatim and everything else becomes an internal error; not-found / method-not-found / missing-reply outcomes use literals with the right code. Subject split arithmetic "
          "and JSON decoding are not decided.", "DESIGN.md section 4 C05"),
+ "C06": ("CFG-reachability order of candidate reads + units rule for mount-relative indexes (value-flow census) + panic-guard dominance at registration + match-record assembly census",
+         "Decides structural necessary conditions of routing: literal before placeholder before wildcard with fall-through on a failed recursive match; mount-relative index fields are written as "
+         "tokenIndex-mountIndex and rebased at every read (one known finding: group tag indexes); registration validates before storing; the match record (node, mount index, params) is written "
+         "atomically at the accept sites and the returned Match takes handler, listeners and group from that one node. Equality with a reference matcher over all inputs is not decided.", "DESIGN.md section 4 C06"),
  "C07": ("funnel census + subject-template matching over concatenation trees + validator rune-class facts + struct-tag / literal vocabulary checks",
          "Decides for every handler program that each published subject is an instance of one of the five documented templates with validated variable parts, that the token validator rejects "
          "everything NATS forbids, that every reply envelope and every static payload literal has exactly one of result/resource/error with string code/message, that meta is only reachable "
